@@ -173,9 +173,17 @@ def _calls(fn, names):
 
 def _has_mod_fact(f, var, k_min, mult=None):
     for t, v in f.items():
+        # `x % k == 0` holds, `x % k != 0` fails, or the remainder itself is tested for truth (`not x % k`)
+        body = None
         if v is True and t.startswith(f"{var} % ") and t.endswith(" == 0"):
+            body = t[len(var) + 3: -5]
+        elif v is False and t.startswith(f"{var} % ") and t.endswith(" != 0"):
+            body = t[len(var) + 3: -5]
+        elif v is False and t.startswith(f"{var} % ") and t[len(var) + 3:].isdigit():
+            body = t[len(var) + 3:]
+        if body is not None:
             try:
-                k = int(t[len(var) + 3: -5])
+                k = int(body)
             except ValueError:
                 continue
             if mult is not None and k % mult == 0:
